@@ -44,9 +44,9 @@ class Diagonalization(Function):
             q_mat = q_mat.unsqueeze(0)
             t_mat = t_mat.unsqueeze(0)
 
-        mins = torch.diagonal(t_mat, dim1=-1, dim2=-2).min(dim=-1, keepdim=True)[0]
+        mins = torch.diagonal(t_mat, dim1=-1, dim2=-2).min(dim=-1, keepdim=True)[0].unsqueeze(-1)
         jitter_val = settings.tridiagonal_jitter.value()
-        jitter_mat = torch.diag_embed(jitter_val * mins).expand_as(t_mat)
+        jitter_mat = (jitter_val * mins) * torch.eye(t_mat.size(-1), device=t_mat.device, dtype=t_mat.dtype)
         eigenvalues, eigenvectors = lanczos.lanczos_tridiag_to_diag(t_mat + jitter_mat)
 
         # Get orthogonal matrix and eigenvalues
